@@ -40,11 +40,26 @@ package printer
 //@   requires p != nil
 //@   modifies p.count
 //
+// printTransaction: after the optional addon lines, the header is written with the format `%s "%s"` from
+// the transaction's own date text and its own description text - the description goes between plain
+// double quotes, unescaped, exactly as the parser reads it back - and then every booking once, in order.
 //@ func (*Printer).printTransaction
 //@   requires p != nil && prTransaction(t)
 //@   modifies p.count
+//@   callback Fprintf=0
+//@   callback printPosting=0
+//@   callback printAccrual=0
+//@   ghost hdr int = 0
+//@   ensures [C08] @header: result == nil ==> old(tlen()) <= hdr && hdr < tlen() && tkind(hdr) == kind("Fprintf") && targ("Fprintf", 1, hdr) == "%s \"%s\""
+//@        && len(targ("Fprintf", 2, hdr)) == 2 && typeIs(targ("Fprintf", 2, hdr)[0], "string") && typeIs(targ("Fprintf", 2, hdr)[1], "string")
+//@        && dyn(targ("Fprintf", 2, hdr)[0], "string") == t.Date.Range.Text[t.Date.Range.Start:t.Date.Range.End]
+//@        && dyn(targ("Fprintf", 2, hdr)[1], "string") == t.Description.Content.Text[t.Description.Content.Start:t.Description.Content.End]
+//@   ensures [C08] @bookings: result == nil ==> tlen() == hdr + 1 + len(t.Bookings)
+//@        && (forall k int :: {t.Bookings[k]} 0 <= k && k < len(t.Bookings) ==> tkind(hdr + 1 + k) == kind("printPosting") && targ("printPosting", 0, hdr + 1 + k) == t.Bookings[k])
 //@   loop 1 invariant 0 <= $i && $i <= len($range)
-//@   loop 2 invariant 0 <= $i && $i <= len($range)
+//@   loop 2 ghost hdr := entry(tlen()) - 1
+//@   loop 2 invariant 0 <= $i && $i <= len($range) && $range == t.Bookings && tlen() == entry(tlen()) + $i
+//@   loop 2 invariant forall k int :: {t.Bookings[k]} 0 <= k && k < $i ==> tkind(entry(tlen()) + k) == kind("printPosting") && targ("printPosting", 0, entry(tlen()) + k) == t.Bookings[k]
 //
 //@ func (*Printer).printAssertion
 //@   requires p != nil && prAssertion(a)
